@@ -7,13 +7,13 @@ TECH = "solver-based: symbolic execution of the real source (symx concolic engin
 
 CLAIMED = {
     "C04": dict(
-        text="Every codec pair is executed symbolically over the whole wire word (16/8/24 bit) and over the value grid; floating-point kernels use z3's IEEE-754 theory (bit-exact CPython semantics), so the verdict covers every word/grid value inside the stated bounds, not a sample.",
+        text="Every codec pair is executed symbolically over the whole wire word (16/8/24 bit) and over the value grid; floating-point kernels use z3's IEEE-754 theory (bit-exact CPython semantics), so the verdict covers every word/grid value inside the stated bounds, not a sample. Packed fault-log time stamps are also round-tripped from the decoder's own text form (all 100 year fields, strptime's %y pivot modelled), and a decoded flag list is edited and the byte decoded again (the decoder hands out fresh objects).",
         note="Trusted: z3's FP/BV theories, the SymDateTime (Gregorian) and struct byte-layout stubs (differentially tested by selfcheck), symx itself. Out-of-range id wrap is a recorded known finding.",
         design="4/C04"),
 }
 CLAIMED.update({
     "C10": dict(
-        text="The real filter predicate, the receive and send gates and the device-creation filter run with the membership of every id in known/block list as free solver Booleans, the enforcement flag, the gateway choice and the direction symbolic; each path's outcome is compared with an independent formula of the statement. Because memberships are free Booleans the verdict holds for lists of any size.",
+        text="The real filter predicate, the receive and send gates and the device-creation filter run with the membership of every id in known/block list as free solver Booleans, the enforcement flag, the gateway choice and the direction symbolic; each path's outcome is compared with an independent formula of the statement. Because memberships are free Booleans the verdict holds for lists of any size. Device creation is checked in both directions (never for a non-allowed id, never refused for an allowed one - the active gateway before its own device exists included) and select_device_filter_mode over symbolic list contents.",
         note="Trusted: z3, symx, the reference predicate transcribed from the statement. The dispatcher's device creation from addresses is outside (needs a live gateway). A block-listed active gateway still getting a Device is a recorded known finding.",
         design="4/C10"),
     "C19": dict(
@@ -54,7 +54,7 @@ CLAIMED.update({
 })
 CLAIMED.update({
     "C06": dict(
-        text="The real matching code (IsInIdle.cmd_sent with the gateway-id substitution, WantEcho.pkt_rcvd, WantRply.pkt_rcvd over pkt_header/_ctx/_idx/_pkt_idx and Command.tx_header/rx_header) runs on requests taken from the logs and built by 25 public constructors, with the context characters/arguments and the gateway's six id digits symbolic; per path the solver shows the substituted echo leaves the echo wait, the reply of an independently modelled conforming device (same context positions, other payload characters symbolic) is returned as the result, and packets differing in exactly one of code/verb/device/context are taken for neither.",
+        text="The real matching code (IsInIdle.cmd_sent with the gateway-id substitution, WantEcho.pkt_rcvd, WantRply.pkt_rcvd over pkt_header/_ctx/_idx/_pkt_idx and Command.tx_header/rx_header) runs on requests taken from the logs and built by 25 public constructors, with the context characters/arguments and the gateway's six id digits symbolic; per path the solver shows the substituted echo leaves the echo wait, the reply of an independently modelled conforming device (same context positions, other payload characters symbolic) is returned as the result, a reply that arrives after a retransmission but before the new echo is still recognised, and packets differing in exactly one of code/verb/device/context (for 0404: zone index, schedule kind DHW/zone, fragment number) are taken for neither.",
         note="Trusted: z3, symx, the recording stand-in for ProtocolContext, the independent context-position table. Bounds: one (thorough: 3) logged request per (verb, code, length); 8 (16) further reply characters symbolic; 1FC9 is under C20.", design="4/C06"),
 })
 CLAIMED.update({
@@ -71,13 +71,13 @@ CLAIMED.update({
 })
 CLAIMED.update({
     "C17": dict(
-        text="The real full_sched_to_fragz -> fragz_to_full_sched pipeline (record packing through the struct byte-layout model, hex rendering, 82-character slicing, re-grouping by day, time/setpoint formatting) runs on a weekly schedule whose zone index and switch points (hour, 5-minute slot, setpoint k/100 or on/off; two days at a time) are solver variables, with zlib replaced by the identity; per path the solver shows read-back == written field by field and every fragment <= 41 bytes. Schedule._update_payload_set/_proc_payload_set are fed the fragments in every order with repeats: whatever they assemble is the schedule written.",
-        note="Trusted: z3, symx, the struct stub. zlib is outside the encodable subset: only decompress(compress(x)) == x is assumed (counterexamples are replayed with the real zlib). The voluptuous validators are not modelled (schedules are well-formed by construction). Float setpoints are exact reals here; the int(round(x*100)) kernel was decided under C04. Fragment write/read commands: C03.",
+        text="The real full_sched_to_fragz -> fragz_to_full_sched pipeline (record packing through the struct byte-layout model, hex rendering, 82-character slicing, re-grouping by day, time/setpoint formatting) runs on a weekly schedule whose zone index and switch points (hour, 5-minute slot, setpoint k/100 or on/off; two days at a time) are solver variables, with zlib replaced by the identity; per path the solver shows read-back == written field by field and every fragment <= 41 bytes. Schedule._update_payload_set/_proc_payload_set are fed the fragments in every order with repeats: whatever they assemble is the schedule written. The fragmentation itself is also run on a compressor output of L arbitrary bytes (L enumerated, contents symbolic): ceil(L/41) non-empty fragments of at most 41 bytes that concatenate to the blob, and the write command of the first and last fragment (and of a fragment of every length 1..41) is accepted and read back by the decoder; a schedule that fits one fragment is received by a real Schedule object, and a zone without schedule asked afterwards is unaffected.",
+        note="Trusted: z3, symx, the struct stub. zlib is outside the encodable subset: only decompress(compress(x)) == x is assumed (counterexamples are replayed with the real zlib). The voluptuous validators are not modelled (schedules are well-formed by construction). Float setpoints are exact reals here; the int(round(x*100)) kernel was decided under C04. The shared mutable EMPTY_PAYLOAD_SET (one-fragment schedule read back as 'no schedule') was found by this check and repaired.",
         design="4/C17"),
 })
 CLAIMED.update({
     "C11": dict(
-        text="The real limit_duty_cycle closure (fresh instance and the one decorating PortTransport.write_frame), the 50 ms write-token task and MqttTransport.write_frame run on the virtual-time loop with perf_counter = the virtual clock; request times are solver reals, frame sizes selectors, callers sequential or overlapping, and the bucket / token level at the start of the episode an arbitrary solver real within the invariant (so each episode is an inductive step). Per path, for every pair of writes: bits <= rate x window + one bucket (+ one frame per pending caller), bits <= level + refill, writes j-i <= window/0.05 + 1, MQTT publishes <= level + refill + one refill second, an accepted MQTT write sleeps <= 1 s and an over-budget one returns at once; every accepted frame is written once, unaltered, sequential ones in order.",
+        text="The real limit_duty_cycle closure (fresh instance and the one decorating PortTransport.write_frame), the 50 ms write-token task and MqttTransport.write_frame run on the virtual-time loop with perf_counter = the virtual clock; request times are solver reals, frame sizes selectors, callers sequential or overlapping, and the bucket / token level at the start of the episode an arbitrary solver real within the invariant (so each episode is an inductive step). Per path, for every pair of writes: bits <= rate x window + one bucket (+ one frame per pending caller), bits <= level + refill, writes j-i <= window/0.05 + 1, MQTT publishes <= level + refill + one refill second, an accepted MQTT write sleeps <= 1 s and an over-budget one returns at once; every accepted frame is written once, unaltered, sequential ones in order. The inductive duty-cycle clause uses the exact over-commit allowance (what other callers wrote while the writer slept), so a debt of concurrent callers that is not carried forward is a counterexample.",
         note="Trusted: z3 (linear real arithmetic), symx, the bare transport objects. The library computes in binary floating point, the solver in exact rationals: inequalities carry a 1e-6 tolerance. Bounds: k <= 3 requests per episode (4 thorough); port queries within 0.2 s because the 50 ms task is stepped. avoid_system_syncs with pending sync cycles is outside.",
         design="4/C11"),
 })
@@ -93,7 +93,7 @@ CLAIMED.update({
 })
 CLAIMED.update({
     "C18": dict(
-        text="The real Schedule.get_schedule/_get_schedule/_is_dated/set_schedule/_handle_msg/_update_payload_set and ScheduleSync._obtain_lock/_release_lock/_schedule_version run on the virtual-time loop (heat.dt = virtual clock) against a scripted controller holding two concrete schedule versions (real zlib); per exchange answer/failure and duration, the position of a version bump, an overheard fragment and the caller's timeout (a solver real) are solver variables. Per path: the transfer ends within the timeout, a returned schedule is version A's or B's (never a mixture) and consistent with the recorded change counter, else it raised; afterwards the transfer lock is free and a follow-up transfer for another zone completes.",
+        text="The real Schedule.get_schedule/_get_schedule/_is_dated/set_schedule/_handle_msg/_update_payload_set and ScheduleSync._obtain_lock/_release_lock/_schedule_version run on the virtual-time loop (heat.dt = virtual clock) against a scripted controller holding two concrete schedule versions (real zlib); per exchange answer/failure and duration, the position of a version bump, an overheard fragment and the caller's timeout (a solver real) are solver variables. Per path: the transfer ends within the timeout, a returned schedule is version A's or B's (never a mixture) and consistent with the recorded change counter, else it raised; afterwards the transfer lock is free, a follow-up transfer for another zone completes and a new transfer for the same zone does its own I/O and returns the controller's current schedule.",
         note="Most decisions are free Booleans/selectors (the solver's part: timeout-versus-progress zones, bookkeeping, replay). Bounds: <= 8 (10) exchanges, <= 2 (3) failures, one bump, one overheard fragment, one follow-up zone; three concurrent transfers are outside. The lock kept after a failed/abandoned get_schedule was found by this check and repaired.",
         design="4/C18"),
 })
